@@ -36,3 +36,10 @@ Definition stmt_ok (s : string) (st : statement) : Prop :=
   | NontermDef _ nsp sh rhs =>
       span_ok s nsp /\ match sh with Some (_, ssp) => span_ok s ssp | None => True end /\ spans_ok s rhs
   end.
+
+(** [sp] starts at the position of a byte of [text] (C13: "the line and column at which the
+    construct really starts"): line and start column are the nom_locate position reached after
+    some prefix [pre], and something follows. *)
+Definition pos_ok (text : string) (sp : span) : Prop :=
+  exists pre rest, text = append pre rest /\ rest <> EmptyString
+    /\ sline sp = pline (adv_str pre pos0) /\ scol sp = pcol (adv_str pre pos0) /\ 1 <= secol sp.
